@@ -24,13 +24,17 @@ func zzC20Sinus() {
 	vLemmaPoint("Sin", 270*math.Pi/180)
 	hiS, hi := zzTwoDigits("hi")
 	loS, lo := zzTwoDigits("lo")
-	vAssume(hi <= lo) // highest level (smallest depth) first, as in the polygon file
+	// the two levels in either order (the polygon file names them high and low, a file may list the deeper one first)
 	tokens := []string{"poly", "sid", "x", hiS, loS}
 	_, ctl := zzR_GWSetup(&g, tokens)
 	vAssert("C20.sinus.setup_falls_through", ctl == 0)
 	vCover("C20.sinus.reach")
 	mean := float64(hi+lo) / 2
 	vAssert("C20.sinus.mean_and_amplitude", g.GW == mean && g.AMPL == float64(lo-hi)/2 && g.GRW == mean)
+	mn, mx := float64(hi), float64(lo)
+	if mn > mx {
+		mn, mx = mx, mn
+	}
 	// daily update on an arbitrary day of the year with an arbitrary phase shift
 	doy := vInt("doy")
 	vAssume(doy >= 1 && doy <= 366)
@@ -43,6 +47,13 @@ func zzC20Sinus() {
 	vAssert("C20.sinus.daily_falls_through", ctl == 0)
 	vObserve("grw", g.GRW)
 	eps := 1e-9
-	vAssert("C20.sinus.level_within_min_max", g.GRW >= float64(hi)-eps && g.GRW <= float64(lo)+eps)
-	vAssert("C20.sinus.oscillates_around_mean", vAbs(g.GRW-mean) <= float64(lo-hi)/2+eps)
+	vAssert("C20.sinus.level_within_min_max", g.GRW >= mn-eps && g.GRW <= mx+eps)
+	vAssert("C20.sinus.oscillates_around_mean", vAbs(g.GRW-mean) <= (mx-mn)/2+eps)
+	// it does oscillate: the level of the day is the mean minus the amplitude times the sine of (day + phase) degrees
+	if (doy+g.GWPhase)%180 != 0 {
+		vAssert("C20.sinus.level_follows_the_sinusoid_of_day_plus_phase", vNear(g.GRW, mean-float64(lo-hi)/2*math.Sin((float64(doy)+float64(g.GWPhase))*math.Pi/180), eps))
+	}
+	if hi > lo {
+		vCover("C20.sinus.cover_deeper_level_listed_first")
+	}
 }
